@@ -295,7 +295,12 @@ func (e *Env) eval(x Expr) Val {
 			n.bound[b.Name] = true
 			bs = append(bs, "("+sym+" "+srt+")")
 		}
-		body := n.eval(x.Body)
+		// under binders only pure terms may be built: no definitions, no side assertions mentioning bound variables
+		g.pure++
+		body := func() Val {
+			defer func() { g.pure-- }()
+			return n.eval(x.Body)
+		}()
 		e.wantBool(body, "quantifier body")
 		bt := body.T
 		if len(x.Trig) > 0 {
@@ -303,7 +308,12 @@ func (e *Env) eval(x Expr) Val {
 			for _, tr := range x.Trig {
 				var ts []string
 				for _, t := range tr {
-					ts = append(ts, n.eval(t).T)
+					g.pure++
+					tv := func() Val {
+						defer func() { g.pure-- }()
+						return n.eval(t)
+					}()
+					ts = append(ts, tv.T)
 				}
 				pats = append(pats, ":pattern ("+strings.Join(ts, " ")+")")
 			}
@@ -772,6 +782,9 @@ func (g *Gen) strLit(s string) string {
 	}
 	if sym, ok := g.strLits[s]; ok {
 		return sym
+	}
+	if g.pure > 0 {
+		efail("new string literal in pure-term mode")
 	}
 	sym := quote(fmt.Sprintf("str!%d", len(g.strLits)+1))
 	g.emit(fmt.Sprintf("(declare-const %s Int)", sym))
